@@ -7,8 +7,9 @@
                     f.1 f.2 .., sub-records f.a f.b .., nested to ANY depth and of any size;
    [headers_of]     the annotated header row a schema is written as;
    [denote]         the explicit model (types, field order, defaults) the schema denotes;
-   [infer]          the Gallina mirror of model_inference.model_from_headers_rec (tied to the
-                    code by differential execution in harness/c18.py);
+   [infer]          the Gallina mirror of model_inference.model_from_headers_rec for the tree of this
+                    run (tied to the code by differential execution in harness/c18.py);
+                    [infer = infer_at inf_nested_by_field_name], see 6;
    [wf_schema]      names are non-empty-of-separators, stripped, not integer-like and distinct per
                     level; a list is spread over leaves only or over nested entries only; every
                     spread / sub-record has an entry; a written default is a literal of its type,
@@ -53,42 +54,45 @@ Print Assumptions C18_infer_never_out_of_fuel.
 
 (* and any larger fuel gives the same answer *)
 Theorem C18_infer_any_fuel : forall hs fuel, (max_len hs < fuel)%nat -> infer hs = infer_rec fuel hs.
-Proof. exact infer_any_fuel. Qed.
+Proof. exact (infer_any_fuel inf_nested_by_field_name). Qed.
 Print Assumptions C18_infer_any_fuel.
 
-(* 3. order of the columns, for ANY header list.  The inferred model (or error) is a function of
-      (a) the plain columns in order, (b) the dotted prefixes in order of first appearance and
-      (c) the sub-headers of each prefix in order: any rearrangement of the header row that
-      keeps these three gives the SAME model. *)
+(* 3. order of the columns, for ANY header list.  A column is "nested" when the code finds the
+      header separator in it ([is_nested inf_nested_by_field_name]: in the whole header on the tree
+      with the defect, in the field name on the repaired tree).  The inferred model (or error) is a
+      function of (a) the plain columns in order, (b) the prefixes of the nested columns in order of
+      first appearance and (c) the sub-headers of each prefix in order: any rearrangement of the
+      header row that keeps these three gives the SAME model. *)
 Theorem C18_infer_partition_invariant : forall hs1 hs2,
-  plain_of hs1 = plain_of hs2 ->
-  prefixes hs1 = prefixes hs2 ->
-  (forall k, subs_of k hs1 = subs_of k hs2) ->
+  plain_of inf_nested_by_field_name hs1 = plain_of inf_nested_by_field_name hs2 ->
+  prefixes inf_nested_by_field_name hs1 = prefixes inf_nested_by_field_name hs2 ->
+  (forall k, subs_of inf_nested_by_field_name k hs1 = subs_of inf_nested_by_field_name k hs2) ->
   infer hs1 = infer hs2.
-Proof. exact infer_partition_invariant. Qed.
+Proof. exact (infer_partition_invariant inf_nested_by_field_name). Qed.
 Print Assumptions C18_infer_partition_invariant.
 
 (* in particular moving the plain columns to the front (both groups in their order) *)
-Theorem C18_infer_partition : forall hs, infer (stable_partition hs) = infer hs.
-Proof. exact infer_partition. Qed.
+Theorem C18_infer_partition : forall hs, infer (stable_partition inf_nested_by_field_name hs) = infer hs.
+Proof. exact (infer_partition inf_nested_by_field_name). Qed.
 Print Assumptions C18_infer_partition.
 
 (* what is NOT invariant is the order of the fields: an inferred class lists the names of the
-   plain columns in order of first occurrence, then the dotted prefixes in order of first
-   occurrence (a prefix that is also a plain name keeps the plain column's position) *)
+   plain columns in order of first occurrence, then the prefixes of the nested columns in order of
+   first occurrence (a prefix that is also a plain name keeps the plain column's position) *)
 Theorem C18_infer_field_order : forall hs fields d,
   infer hs = Ok (TRec fields, d) ->
-  map fst fields = first_occ (map get_field_name (plain_of hs) ++ map fst (pairs_of hs)).
-Proof. exact infer_field_order. Qed.
+  map fst fields = first_occ (map get_field_name (plain_of inf_nested_by_field_name hs)
+                              ++ map fst (pairs_of inf_nested_by_field_name hs)).
+Proof. exact (infer_field_order inf_nested_by_field_name). Qed.
 Print Assumptions C18_infer_field_order.
 
-Example C18_infer_order_nonvacuous :
-  stable_partition ex_mixed <> ex_mixed /\ prefixes ex_mixed = [[98]; [99]]%N
-  /\ subs_of [98]%N ex_mixed = [[120]; [121]]%N /\ exists m, infer ex_mixed = Ok m.
+Example C18_infer_order_nonvacuous : forall bn,
+  stable_partition bn ex_mixed <> ex_mixed /\ prefixes bn ex_mixed = [[98]; [99]]%N
+  /\ subs_of bn [98]%N ex_mixed = [[120]; [121]]%N /\ exists m, infer_at bn ex_mixed = Ok m.
 Proof. exact ex_mixed_moves. Qed.
 Print Assumptions C18_infer_order_nonvacuous.
 
-Example C18_infer_field_order_nonvacuous : exists fields d, infer ex_mixed = Ok (TRec fields, d).
+Example C18_infer_field_order_nonvacuous : forall bn, exists fields d, infer_at bn ex_mixed = Ok (TRec fields, d).
 Proof. exact ex_mixed_class. Qed.
 Print Assumptions C18_infer_field_order_nonvacuous.
 
@@ -120,13 +124,51 @@ Theorem C18_sheet_model_of_schema : forall sc rows,
 Proof. exact sheet_model_of_schema. Qed.
 Print Assumptions C18_sheet_model_of_schema.
 
-(* 6. the default clause at FULL strength (a default may contain a period: x:float=1.5,
-      site=www.example.org) is refuted for the model of this tree: finding default-contains-dot *)
-Theorem C18_dot_default_refuted :
-  ~ (forall sc, wf_schema_full sc = true -> infer (headers_of sc) = Ok (denote sc)).
-Proof. exact dot_default_refuted. Qed.
-Print Assumptions C18_dot_default_refuted.
+(* 6. the default clause at FULL strength: [wf_schema_full] drops the restriction that a written
+      default has no header separator (x:float=1.5, site=www.example.org).  Decided for the code
+      of this run through the regenerated constant [inf_nested_by_field_name] (probed by the
+      translator): the headline HOLDS over the full family when the code looks for the header
+      separator in the field name only (the repaired tree), and is REFUTED by x:float=1.5 when it
+      looks in the whole header (finding default-contains-dot). *)
+Theorem C18_dot_default_decided :
+  if inf_nested_by_field_name
+  then forall sc, wf_schema_full sc = true -> infer (headers_of sc) = Ok (denote sc)
+  else ~ (forall sc, wf_schema_full sc = true -> infer (headers_of sc) = Ok (denote sc)).
+Proof. exact dot_default_decided. Qed.
+Print Assumptions C18_dot_default_decided.
 
-Example C18_dot_default_refuted_witness : wf_schema_full ex_dot = true /\ wf_schema ex_dot = false.
+(* both behaviours are mirrored ([infer = infer_at inf_nested_by_field_name]) and both facts are
+   proved on every run, whatever the tree: the candidate repair is correct over the full family, *)
+Theorem C18_by_field_name_headline_full : forall sc,
+  wf_schema_full sc = true -> infer_at true (headers_of sc) = Ok (denote sc).
+Proof. exact headline_full_by_name. Qed.
+Print Assumptions C18_by_field_name_headline_full.
+
+(* the whole-header test is not, *)
+Theorem C18_whole_header_headline_full_refuted :
+  ~ (forall sc, wf_schema_full sc = true -> infer_at false (headers_of sc) = Ok (denote sc)).
+Proof. exact headline_full_whole_header_refuted. Qed.
+Print Assumptions C18_whole_header_headline_full_refuted.
+
+(* and on the family of (1) the two behaviours agree with the denoted model *)
+Theorem C18_infer_at_headers_of : forall bn sc,
+  wf_schema sc = true -> infer_at bn (headers_of sc) = Ok (denote sc).
+Proof. exact infer_at_headers_of. Qed.
+Print Assumptions C18_infer_at_headers_of.
+
+Example C18_dot_default_witness : wf_schema_full ex_dot = true /\ wf_schema ex_dot = false.
 Proof. exact ex_dot_full. Qed.
-Print Assumptions C18_dot_default_refuted_witness.
+Print Assumptions C18_dot_default_witness.
+
+Example C18_dot_default_witness_by_field_name :
+  infer_at true (headers_of ex_dot)
+  = Ok (TRec [(nm 120, (TFloat, VFloat [49; 46; 53]%N))], VRec [(nm 120, VFloat [49; 46; 53]%N)]).
+Proof. exact ex_dot_by_name. Qed.
+Print Assumptions C18_dot_default_witness_by_field_name.
+
+Example C18_dot_default_witness_whole_header :
+  exists t d, infer_at false (headers_of ex_dot)
+              = Ok (TRec [([120; 58; 102; 108; 111; 97; 116; 61; 49]%N, (TList t, d))],
+                    VRec [([120; 58; 102; 108; 111; 97; 116; 61; 49]%N, d)]).     (* a field "x:float=1" *)
+Proof. exact ex_dot_whole_header. Qed.
+Print Assumptions C18_dot_default_witness_whole_header.
